@@ -47,12 +47,12 @@ def obligations(tier):
         L.append(ob("posD/mix/t%d" % i, "jsontext", "VerifC16PosD", [t, 0, 16, 4 if q else 6, True, False], covers=["token", "value", "nested"]))
 
     # posE: positions after every encoder call
-    for pre in range(6):
+    for pre in ((0, 1, 2, 4) if q else range(6)):
         for k, sl, rl in ([(2, 1, 2)] if q else [(2, 2, 3), (3, 1, 2)]):
             L.append(ob("posE/pre=%d/k=%d/str=%d/raw=%d" % (pre, k, sl, rl), "jsontext", "VerifC16PosE", [pre, k, sl, rl, False], covers=["accepted", "rejected"]))
     if not q:
         L.append(ob("posE/pre=0/k=4/str=1/raw=1", "jsontext", "VerifC16PosE", [0, 4, 1, 1, False], covers=["accepted", "rejected", "nested"]))
-        L.append(ob("posE/pre=4/k=3/allowdup", "jsontext", "VerifC16PosE", [4, 3, 1, 2, True], covers=["accepted", "rejected", "nested"]))
+        L.append(ob("posE/pre=4/k=2/allowdup", "jsontext", "VerifC16PosE", [4, 2, 2, 3, True], covers=["accepted", "rejected", "nested"]))
 
     only = os.environ.get("C16_ONLY")  # development aid: run a subset
     if only:
@@ -82,10 +82,10 @@ _COMMON = (
 
 BOUNDS = {
     "quick": _COMMON + "Sizes: decoder inputs = all strings of <=4 bytes over SigmaStruct {}[]:,\"a1 and space, plus templates with 1-3 holes over "
-             "{}[]:,\"a1 b2~/\\ and space: " + ", ".join(ERR_T_Q + POS_T_Q) + "; encoder k=2, |s|<=1, |raw|<=2; pointers <=4 bytes over {/ ~ 0 1 a} "
+             "{}[]:,\"a1 b2~/\\ and space: " + ", ".join(ERR_T_Q + POS_T_Q) + "; encoder k=2, |s|<=1, |raw|<=2 (preludes 0,1,2,4); pointers <=4 bytes over {/ ~ 0 1 a} "
              "(<=3 with 0xC3 0xA9 0xFF added), AppendToken p<=2,tok<=2, Contains p<=3,q<=3.",
     "thorough": _COMMON + "Sizes: decoder inputs <=6 bytes over SigmaStruct, templates: " + ", ".join(ERR_T_Q + ERR_T_T + POS_T_Q + POS_T_T) +
-                "; encoder k=2 (|s|<=2,|raw|<=3), k=3 (|s|<=1,|raw|<=2) for all preludes, k=4 from the empty state; pointers <=6 bytes ASCII, <=4 with UTF-8/0xFF bytes, "
+                "; encoder k=2 (|s|<=2,|raw|<=3), k=3 (|s|<=1,|raw|<=2) for all preludes, k=4 from the empty state, k=2 with AllowDuplicateNames after the nested prelude; pointers <=6 bytes ASCII, <=4 with UTF-8/0xFF bytes, "
                 "AppendToken p<=3,tok<=3, Contains p<=4,q<=5.",
 }
 ASSUMPTIONS = [
